@@ -17,7 +17,10 @@ DEFS = ['DBGROUP_MAX_THREAD_NUM=32', 'CPP_UTILITY_SPINLOCK_RETRY_NUM=10', 'CPP_U
 
 
 def sh(cmd, timeout=300):
-    p = subprocess.run(cmd, capture_output=True, text=True, timeout=timeout)
+    try:
+        p = subprocess.run(cmd, capture_output=True, text=True, timeout=timeout)
+    except subprocess.TimeoutExpired:
+        return 124, '', 'timeout after %ds: %s' % (timeout, ' '.join(cmd[:3]))
     return p.returncode, p.stdout, p.stderr
 
 
@@ -32,8 +35,8 @@ class LockGen:
     def emit(self, n_seq, n_ops):
         P = self.P
         for s in range(n_seq):
-            self.c.append('{ %s L = %s_ctor0();' % (P, P))
-            self.cpp.append('{ %s L{};' % P)
+            self.c.append('static void seq_%d(void) { %s L = %s_ctor0();' % (s, P, P))
+            self.cpp.append('static void seq_%d() { %s L{};' % (s, P))
             # guard slots
             slots = {'S': 3, 'SIX': 2, 'X': 2}
             st = {}
@@ -232,10 +235,11 @@ def run_lock(cls, n_seq, seed, work):
     g = LockGen(cls, random.Random(seed))
     g.emit(n_seq, 25)
     cfile = os.path.join(work, 'fid_%s.c' % cls)
-    open(cfile, 'w').write(text + '\n_Bool verif_thrown;\nint main(void)\n{\n' + '\n'.join(g.c) + '\nreturn 0;\n}\n')
+    calls = '\n'.join('seq_%d();' % i for i in range(n_seq))
+    open(cfile, 'w').write(text + '\n_Bool verif_thrown;\n' + '\n'.join(g.c) + '\nint main(void)\n{\n' + calls + '\nreturn 0;\n}\n')
     cppfile = os.path.join(work, 'fid_%s.cpp' % cls)
     hdr = {'pess': 'pessimistic_lock', 'opt': 'optimistic_lock'}[cls]
-    open(cppfile, 'w').write('#include <cstdio>\n#include <optional>\n#include <utility>\n#include "dbgroup/lock/%s.hpp"\nusing dbgroup::lock::%s;\nint main()\n{\n' % (hdr, g.P) + '\n'.join(g.cpp) + '\nreturn 0;\n}\n')
+    open(cppfile, 'w').write('#include <cstdio>\n#include <optional>\n#include <utility>\n#include "dbgroup/lock/%s.hpp"\nusing dbgroup::lock::%s;\n' % (hdr, g.P) + '\n'.join(g.cpp) + '\nint main()\n{\n' + calls + '\nreturn 0;\n}\n')
     rc, o, e = sh(['gcc', '-O1', '-w', '-DVERIF_NATIVE', '-I' + os.path.join(ROOT, 'stubs'), cfile, '-o', cfile + '.exe', '-lm'])
     if rc:
         return 'C build failed: ' + e[-800:], 0
@@ -270,6 +274,8 @@ def run_zipf(n_cases, seed, work):
         mx = mn + n - 1
         alpha = rng.choice([0.0, 0.5, 0.99, 1.0, 1.01, 2.0, 3.0, rng.randrange(0, 3000) / 1000.0])
         words = [0, (1 << 64) - 1, (1 << 63), rng.randrange(1 << 64), rng.randrange(1 << 64)]
+        c.append('static void case_%d(void) {' % k)
+        cpp.append('static void case_%d() {' % k)
         for cls, C in (('ZipfDistribution', 'ZipfDistribution'), ('ApproxZipfDistribution', 'ApproxZipfDistribution')):
             lit = lambda v: ('%dLL' % v) if v > -(1 << 63) else '(-9223372036854775807LL-1)'
             c.append('{ verif_thrown = 0; %s_%s d = %s_%s_ctor3((%s)%s, (%s)%s, %r);' % (C, t, C, t, TY[t], lit(mn), TY[t], lit(mx), alpha))
@@ -286,12 +292,15 @@ def run_zipf(n_cases, seed, work):
                 cpp.append('{ FixedEngine g{%dULL}; printf("v %%lld\\n", (long long)d(g)); }' % w)
             c.append('}')
             cpp.append('}')
+        c.append('}')
+        cpp.append('}')
+    calls = '\n'.join('case_%d();' % i for i in range(n_cases))
     cfile = os.path.join(work, 'fid_zipf.c')
-    open(cfile, 'w').write(text + '\n_Bool verif_thrown;\nint main(void)\n{\n' + '\n'.join(c) + '\nreturn 0;\n}\n')
+    open(cfile, 'w').write(text + '\n_Bool verif_thrown;\n' + '\n'.join(c) + '\nint main(void)\n{\n' + calls + '\nreturn 0;\n}\n')
     cppfile = os.path.join(work, 'fid_zipf.cpp')
     open(cppfile, 'w').write('#include <cstdio>\n#include <cstdint>\n#include <limits>\n#include "dbgroup/random/zipf.hpp"\nusing namespace dbgroup::random;\n'
                              'struct FixedEngine { using result_type = uint64_t; uint64_t w; static constexpr uint64_t min() { return 0; } static constexpr uint64_t max() { return std::numeric_limits<uint64_t>::max(); } uint64_t operator()() { return w; } };\n'
-                             'int main()\n{\n' + '\n'.join(cpp) + '\nreturn 0;\n}\n')
+                             + '\n'.join(cpp) + '\nint main()\n{\n' + calls + '\nreturn 0;\n}\n')
     rc, o, e = sh(['gcc', '-O1', '-w', '-ffp-contract=off', '-DVERIF_NATIVE', '-I' + os.path.join(ROOT, 'stubs'), cfile, '-o', cfile + '.exe', '-lm'])
     if rc:
         return 'C build failed: ' + e[-800:], 0
@@ -317,12 +326,12 @@ def run_zipf(n_cases, seed, work):
 def check(component, tier, seed, work):
     """returns (error or None, number of compared observations)"""
     os.makedirs(work, exist_ok=True)
-    n = 40 if tier == 'quick' else 1500
+    quick = tier == 'quick'
     try:
         if component in ('pess', 'opt'):
-            return run_lock(component, n, seed, work)
+            return run_lock(component, 40 if quick else 300, seed, work)
         if component == 'zipf':
-            return run_zipf(max(n // 2, 10), seed, work)
+            return run_zipf(20 if quick else 750, seed, work)
     except cxx2c.ExtractError as ex:
         return 'extraction failed: %s' % ex, 0
     return None, 0
